@@ -335,6 +335,7 @@ class Run:
         self.wire_dec = {}  # (idx, serial) -> oracle.decode_wire result
         self.genuine = {}  # "opid:k" -> Reply (pristine clone source)
         self.dgrams = {}  # dgram id -> dict(label, hex, s)
+        self.shared = {}  # key / user objects shared between sessions (plan["share_objects"])
         self.latency = plan.get("latency_ns", 1_000_001)
         self.sim.on_send = self.on_send
         self.sim.pre_send = self.pre_send
@@ -545,13 +546,32 @@ class Run:
         KT = g.user.KeyType
         kt = {"password": KT.Password, "master": KT.Master, "localized": KT.Localized}
         auth = priv = None
+        # share_objects: the application builds each distinct key / user once and hands the same Python
+        # object to every session that uses it (credentials are values: sharing must not matter)
+        share = self.shared if self.plan.get("share_objects") else None
+
+        def key(cls, spec):
+            k = (cls.__name__, spec["key"], spec["type"])
+            if share is not None and k in share:
+                self.sim.count("probe.shared-key-object")
+                return share[k]
+            obj = cls(bytes.fromhex(spec["key"]), key_type=kt[spec["type"]])
+            if share is not None:
+                share[k] = obj
+            return obj
+
         if u.get("auth"):
-            cls = {1: g.user.Md5Key, 2: g.user.Sha1Key}[u["auth"]["alg"]]
-            auth = cls(bytes.fromhex(u["auth"]["key"]), key_type=kt[u["auth"]["type"]])
+            auth = key({1: g.user.Md5Key, 2: g.user.Sha1Key}[u["auth"]["alg"]], u["auth"])
         if u.get("priv"):
-            cls = {1: g.user.DesKey, 2: g.user.Aes128Key}[u["priv"]["alg"]]
-            priv = cls(bytes.fromhex(u["priv"]["key"]), key_type=kt[u["priv"]["type"]])
-        return g.user.User(u["name"], auth_key=auth, priv_key=priv)
+            priv = key({1: g.user.DesKey, 2: g.user.Aes128Key}[u["priv"]["alg"]], u["priv"])
+        uk = ("user", u["name"], id(auth), id(priv))
+        if share is not None and uk in share:
+            self.sim.count("probe.shared-user-object")
+            return share[uk]
+        user = g.user.User(u["name"], auth_key=auth, priv_key=priv)
+        if share is not None:
+            share[uk] = user
+        return user
 
     def make_session(self, idx, cfg):
         g = self.g
@@ -560,6 +580,8 @@ class Run:
         ver = {"v1": g.SnmpVersion.v1, "v2c": g.SnmpVersion.v2c, "v3": g.SnmpVersion.v3}[cfg.get("version", "v2c")]
         if not cfg.get("version_auto"):
             kw["version"] = ver  # otherwise left to the constructor: v3 iff a user is given, else v2c
+            if cfg.get("version_int"):
+                kw["version"] = int(ver)  # SnmpVersion is an IntEnum: the plain number means the same
         for k in ("tos", "send_buffer", "recv_buffer"):
             if k in cfg:
                 kw[k] = cfg[k]
@@ -667,11 +689,21 @@ class Run:
             out["retried_at"] = errors
         return out
 
+    def real_pause(self, op):
+        """Wall-clock perturbation: real time passes while no simulated time does. Code that keeps to
+        the seams cannot tell; code that reads a clock of its own (std::time, time.monotonic) can."""
+        if op.get("real_s"):
+            import time as _t
+
+            _t.sleep(op["real_s"])
+            self.sim.count("fault.wall-clock-pause")
+
     def do_sync(self, i, op):
         kind = op["op"]
         sim = self.sim
         if kind == "idle":
             sim.log("idle", sim.now, op["ns"])
+            self.real_pause(op)
             sim.run_until(sim.now + op["ns"])
             return
         if kind == "agent":
@@ -785,6 +817,7 @@ class Run:
             kind = op["op"]
             if kind == "idle":
                 self.sim.log("idle", self.sim.now, op["ns"])
+                self.real_pause(op)
                 await asyncio.sleep(op["ns"] / 1e9)
             elif kind == "get":
 
@@ -883,6 +916,7 @@ class Run:
                 for i, op in lst:
                     if op["op"] == "idle":
                         self.sim.log("idle", self.sim.now, op["ns"])
+                        self.real_pause(op)
                         sched.park(lambda: False, self.sim.now + op["ns"])
                     else:
                         self.do_sync(i, op)
